@@ -206,6 +206,11 @@ def _build_prim_table():
 
         return f
 
+    def _fmt_escaped(s):
+        from liquid.extra.filters.translate import BaseTranslateFilter as B
+
+        return B.re_literal_percent.sub("%%", s) % {k: "v" for k in B.re_vars.findall(s)}
+
     def b64(s):
         return base64.b64decode(s).decode(), base64.urlsafe_b64decode(s).decode()
 
@@ -232,7 +237,7 @@ def _build_prim_table():
         "dateparse": ([[c for c in STRS if c not in ("str_int", "str_ts", "str_bigdigits", "str_hugeint")]], parser.parse, False),
         "json_indent": ([[c for c in NUMERIC if c.startswith("int_") and c != "int_ts"]], lambda n: _json.dumps([1], indent=n), False),
         "sorted": ([[c for c in allc if c.startswith("list_") or c in ("range",)]], sorted, False),
-        "percent_format": ([[c for c in STRS if c not in ("str_hugeint",)]], lambda s: s % {k: "v" for k in __import__("re").findall(r"(?<!%)%\((\w+)\)s", s)}, False),
+        "percent_format": ([[c for c in STRS if c not in ("str_hugeint",)]], _fmt_escaped, False),
         "intdiv": ([[c for c in NUMERIC if not c.startswith("float")], [c for c in NUMERIC if not c.startswith("float")]], lambda a, b: (a // b, a % b), False),
         "truediv": ([NUMERIC, [c for c in NUMERIC if c.startswith("float")]], lambda a, b: a / b, False),
         "truediv_r": ([[c for c in NUMERIC if c.startswith("float")], NUMERIC], lambda a, b: a / b, False),
